@@ -83,14 +83,14 @@ def spec(draw):
         c["u"] = draw(S.uniform_instant())
         c["off"] = draw(S.fixed_offset_seconds())
     elif k in ("naive", "date", "time"):
-        c["w"] = draw(st.integers(S.LO_U, S.HI_U))
+        c["w"] = draw(S.uni(S.LO_U, S.HI_U))
         c["fold"] = draw(st.integers(0, 1))
     elif k in ("duration", "absduration"):
         c["args"] = draw(dur_args)
     elif k in ("interval", "date_interval"):
         c["z2"] = draw(S.zones())
         c["u1"] = draw(st.one_of(S.instant_near_transition(z), S.uniform_instant()))
-        c["u2"] = draw(st.one_of(S.uniform_instant(), st.integers(-10**13, 10**13)))
+        c["u2"] = draw(st.one_of(S.uniform_instant(), S.uni(-10**13, 10**13)))
         c["absolute"] = draw(st.booleans())
         c["rel"] = draw(st.booleans())
     elif k == "fixedtz":
